@@ -9,6 +9,18 @@ from harness import core
 PHYS = [(1e-6, 1e-2, 1e2), (500e-9, 0.01, 1000.0), (2e-3, 1e-3, 0.01)]
 
 
+def phys_sets(tier, rng):
+    """quick: the three fixed sets; thorough: plus random ones (alpha0 between 0.02 and 20, one in three sub-wavelength sampled)"""
+    out = list(PHYS)
+    if tier == "thorough":
+        for k in range(6):
+            lam = float(10 ** rng.uniform(-7, -3))
+            d1 = lam * (float(rng.uniform(0.15, 0.6)) if k % 3 == 0 else float(10 ** rng.uniform(1, 4)))
+            alpha0 = float(10 ** rng.uniform(-1.7, 1.3))
+            out.append((lam, d1, d1 * d1 / (lam * alpha0)))
+    return out
+
+
 def rat(r):
     return Fraction(int(r[0]), int(r[1]))
 
